@@ -190,6 +190,28 @@ def array_decoder(ctx, cm, rule, le, spec_rule=None):
                  if any(kind(c[2]) == 'sub' and R._is_table(c[2][1], cm,
                                                             'dec')
                         for bp in ev[4] for c in bp.calls())]
+        if len(loops) == 0:
+            # shortcut return (e.g. for an empty array): it must still
+            # account for the length word and the padding before the first
+            # element, which is present even when the array is empty
+            ok = False
+            for pc_ in [c for c in p.calls(deep=False)
+                        if kind(c[2]) == 'sub' and
+                        R._is_table(c[2][1], cm, 'pad') and
+                        elem_key_ok(c[2][2], ct) and len(c[3]) == 1]:
+                want = ('binop', '+', C(4), ('len', pc_))
+                if size is not None and aff_eq(size, want, falsy) and \
+                        aff_eq(pc_[3][0], ('binop', '+', start, C(4)),
+                               falsy):
+                    ok = True
+            ctx.ob(rule, fi.qualname, 'shortcut-return-size:' + tag, ok,
+                   'a return that decodes no element must still report 4 + '
+                   'len(pad[element code](offset + 4)) bytes (the padding '
+                   'before the first element is present even in an empty '
+                   'array); reports %s' % (
+                       R.affine_str(aff(size, falsy)) if size is not None
+                       else term_str(p.value)[:120]))
+            continue
         if len(loops) != 1:
             ctx.ob(rule, fi.qualname, 'element-loop:' + tag, False,
                    'expected exactly one element loop dispatching through '
